@@ -1,7 +1,7 @@
 #!/bin/bash
 # tools/silence.sh <tier> <seeds...> : every check on the unchanged tree, several seeds; prints only problems.
 TIER=$1; shift
-cd /verif/harness && cargo build --release --offline 2>&1 | grep -E "^error" && exit 2
+/verif/check build || exit 2
 cd /verif
 for s in "$@"; do
   for p in C01 C02 C03 C04 C05 C06 C07 C08 C09 C10 C11 C12 C13 C14 C15 C16 C17 C18; do
